@@ -1,4 +1,50 @@
-(* placeholder until the proofs are integrated *)
-From LLTD Require Import BufProofs.
-Theorem C19_placeholder : True. Proof. exact I. Qed.
-Print Assumptions C19_placeholder.
+(* C19: bounded memory, nothing leaked.
+   Statements only: each theorem restates the full type of a lemma proved in coq/proofs and is closed by
+   `exact`; Print Assumptions beneath.  Regenerate with bin/genprops.py after a lemma changes. *)
+From LLTD Require Import BlockFun BlockSafe FaultProofs.
+
+Theorem C19_ledger_is_what_records_hold :
+  forall (af sf : N -> bool) (junk : N) (cfgs : N -> pcfg) (g : gcfg) (l : list fop)
+  (r : registry) (w : world) (bl : nat) (bb : N),
+  Forall (fop_ok cfgs) l ->
+  ledger_reg bl bb r w ->
+  reg_bounded g r ->
+  exists (r' : registry) (w' : world),
+  run_frames af sf junk cfgs g r l w = Ok r' w' /\ ledger_reg bl bb r' w' /\ reg_bounded g r'.
+Proof. exact safe_history. Qed.
+Print Assumptions C19_ledger_is_what_records_hold.
+
+Theorem C19_bytes_bounded :
+  (N -> bool) ->
+  (N -> bool) ->
+  N ->
+  (N -> pcfg) ->
+  forall (g : gcfg) (r : registry),
+  reg_bounded g r -> (reg_bytes r <= N.of_nat (length r) * per_iface_bound g)%N.
+Proof. exact reg_bytes_bound. Qed.
+Print Assumptions C19_bytes_bounded.
+
+Theorem C19_count_bounded :
+  (N -> bool) ->
+  (N -> bool) ->
+  N ->
+  (N -> pcfg) ->
+  forall (g : gcfg) (r : registry),
+  reg_bounded g r -> reg_count r <= length r * (2 + o LLTD_SEE_LIST_MAX).
+Proof. exact reg_count_bound. Qed.
+Print Assumptions C19_count_bounded.
+
+Theorem C19_after_reset_only_record :
+  forall (af sf : N -> bool) (junk ctx : N) (c : pcfg) (g : gcfg) (s : ist)
+  (buf : list N) (h : hdr) (w : world) (bl : nat) (bb : N),
+  cfg_ok c ->
+  length buf = o (c_rxsize c) ->
+  ledger_frame bl bb s w ->
+  parse_hdr buf = Some h ->
+  h_tos h = tos_discovery ->
+  h_opc h = opcode_reset ->
+  exists (s' : ist) (w' : world),
+  parse_frame_st af sf junk ctx c g s buf w = Ok s' w' /\
+  norm s' = fresh /\ w_live w' = bl /\ w_bytes w' = bb /\ w_trace w' = w_trace w /\ w_now w' = w_now w.
+Proof. exact reset_any_oracle. Qed.
+Print Assumptions C19_after_reset_only_record.
